@@ -155,40 +155,53 @@ def _nm(s: str) -> str:
     return ' name="%s"' % esc(s) if s != "" else ""
 
 
-def counts(K: int, anchor: bool):
-    """number of objects of each type in the generated model (decides the table size T = 2 n)."""
+def extras(profile: int, ti: int) -> int:
+    """filler objects appended to type number ti: three profiles such that any two types get different object counts in at
+    least one profile (a swapped / skipped count in the table-offset arithmetic then moves a table)."""
+    return (ti // (3 ** profile)) % 3
+
+
+def counts(K: int, anchor: bool, profile: int = 0):
+    """number of generator-named objects of each type (anchors and the world body come on top)."""
     n = {}
-    for k in TYPE_KEYS:
+    for ti, k in enumerate(TYPE_KEYS):
         if k in NEED_ANCHOR and not anchor:
             n[k] = 0
         else:
-            n[k] = K
-    n["body"] = K + 1 + (1 if anchor else 0)
-    if anchor:
-        n["joint"] = K + 1
-        n["geom"] = K + 2
-        n["site"] = K + 2
+            n[k] = K + extras(profile, ti)
     return n
 
 
-def build_model(names: dict, K: int, anchor: bool = True, modelname: str = "a", compiler: str = ""):
-    """names[typekey] = K names ("" = unnamed, only where MJCF allows).  Returns (xml, expected) where
-    expected[typekey] is the id-ordered name list of the compiled model."""
-    g = lambda k: list(names.get(k, [""] * K))  # noqa: E731
+def table_counts(K: int, anchor: bool, profile: int = 0):
+    """number of objects of each type in the compiled model (decides the table size T = 2 n)."""
+    n = counts(K, anchor, profile)
+    n["body"] += 1 + (1 if anchor else 0)
+    if anchor:
+        n["joint"] += 1
+        n["geom"] += 2
+        n["site"] += 2
+    return n
+
+
+def build_model(names: dict, anchor: bool = True, modelname: str = "a", compiler: str = ""):
+    """names[typekey] = list of names ("" = unnamed, only where MJCF allows), any length >= 0 (body >= 1).
+    Returns (xml, expected) where expected[typekey] is the id-ordered name list of the compiled model."""
+    g = lambda k: list(names.get(k, []))  # noqa: E731
     for k in TYPE_KEYS:
-        if k in names:
-            assert len(names[k]) == K, (k, names[k])
-            if not UNNAMED_OK[k]:
-                assert all(x != "" for x in names[k]), k
+        if not UNNAMED_OK[k]:
+            assert all(x != "" for x in g(k)), k
+        if k in NEED_ANCHOR and not anchor:
+            assert not g(k), k
     exp = {k: [] for k in TYPE_KEYS}
     x = ['<mujoco model="%s">' % esc(modelname)]
     if compiler:
         x.append("  <compiler %s/>" % compiler)
-    x.append('  <extension><plugin plugin="mujoco.sdf.torus">')
-    for s in g("plugin"):
-        x.append("    <instance%s/>" % _nm(s))
-        exp["plugin"].append(s)
-    x.append("  </plugin></extension>")
+    if g("plugin"):
+        x.append('  <extension><plugin plugin="mujoco.sdf.torus">')
+        for s in g("plugin"):
+            x.append("    <instance%s/>" % _nm(s))
+            exp["plugin"].append(s)
+        x.append("  </plugin></extension>")
     x.append("  <custom>")
     for i, s in enumerate(g("numeric")):
         x.append('    <numeric%s data="%d"/>' % (_nm(s), i))
@@ -216,21 +229,22 @@ def build_model(names: dict, K: int, anchor: bool = True, modelname: str = "a", 
     x.append("  </asset>")
     x.append("  <worldbody>")
     exp["body"].append("world")
-    bn, jn, gn, sn, cn, ln = g("body"), g("joint"), g("geom"), g("site"), g("camera"), g("light")
-    for i in range(K):
-        x.append('    <body%s pos="%d 0 0">' % (_nm(bn[i]), i))
-        x.append('      <joint%s type="hinge"/>' % _nm(jn[i]))
-        x.append('      <geom%s size=".1" contype="0" conaffinity="0"/>' % _nm(gn[i]))
-        x.append("      <site%s/>" % _nm(sn[i]))
-        x.append("      <camera%s/>" % _nm(cn[i]))
-        x.append("      <light%s/>" % _nm(ln[i]))
-        x.append("    </body>")
+    bn = g("body")
+    nb = len(bn)
+    assert nb >= 1
+    elems = {"joint": '<joint%s type="hinge"/>', "geom": '<geom%s size=".1" contype="0" conaffinity="0"/>',
+             "site": "<site%s/>", "camera": "<camera%s/>", "light": "<light%s/>"}
+    for i in range(nb):
+        x.append('    <body%s pos="%d 0 0"><inertial pos="0 0 0" mass="1" diaginertia="1 1 1"/>' % (_nm(bn[i]), i))
         exp["body"].append(bn[i])
-        exp["joint"].append(jn[i])
-        exp["geom"].append(gn[i])
-        exp["site"].append(sn[i])
-        exp["camera"].append(cn[i])
-        exp["light"].append(ln[i])
+        for ek, fmt in elems.items():
+            lst = g(ek)
+            # element j lives in body min(j, nb-1): a monotone map, so ids follow the list order
+            for j, s in enumerate(lst):
+                if min(j, nb - 1) == i:
+                    x.append("      " + fmt % _nm(s))
+                    exp[ek].append(s)
+        x.append("    </body>")
     if anchor:
         x.append('    <body name="REFB" pos="0 1 0"><joint name="REFJ" type="hinge"/>'
                  '<geom name="REFG1" size=".1"/><geom name="REFG2" size=".1" pos="1 0 0"/>'
